@@ -24,7 +24,7 @@ fn n_sampled_chunks(tier: Tier) -> u64 {
     }
 }
 
-fn sampled(rng: &mut Rng) -> Scenario {
+pub(crate) fn sampled(rng: &mut Rng) -> Scenario {
     let m = gen_method(rng);
     let entry = if rng.bool(0.5) { Entry::High } else { Entry::Low };
     let class = if rng.bool(0.15) { ProbClass::Hostile } else { ProbClass::Smooth };
